@@ -5,7 +5,8 @@ pub mod c02;
 pub mod c15;
 pub mod c16;
 pub mod c17;
+pub mod c18;
 
 pub fn all() -> Vec<Property> {
-    vec![c01::property(), c02::property(), c15::property(), c16::property(), c17::property()]
+    vec![c01::property(), c02::property(), c15::property(), c16::property(), c17::property(), c18::property()]
 }
